@@ -40,7 +40,7 @@ $(foreach u,$(TSI_UNITS),$(eval $(B)/tsi/repo/CppUTest/$(u).o: FLAGS_tsi := $(BA
 RUNSIM_SRCS := runsim/main.cpp runsim/gen.cpp runsim/exec.cpp runsim/oracle.cpp core/asanopts.cpp
 define RUNSIM_RULE
 $(B)/$(1)/runsim: $(patsubst %.cpp,$(B)/$(1)/verif/%.o,$(RUNSIM_SRCS)) $(call repo_objs,$(1))
-	$(CXX) $$(FLAGS_$(1)) $$^ -o $$@ -lexpat -lpthread -Wl,--wrap=kill,--wrap=fork,--wrap=waitpid,--wrap=fopen,--wrap=fputs,--wrap=fclose,--wrap=fflush
+	$(CXX) $$(FLAGS_$(1)) $$^ -o $$@ -lexpat -lpthread -Wl,--wrap=kill,--wrap=fork,--wrap=waitpid,--wrap=fopen,--wrap=fputs,--wrap=fclose,--wrap=fflush,--wrap=fwrite,--wrap=fputc,--wrap=putc,--wrap=putchar,--wrap=puts,--wrap=vfprintf,--wrap=fprintf,--wrap=vprintf,--wrap=printf
 endef
 $(foreach v,asan noexc plain,$(eval $(call RUNSIM_RULE,$(v))))
 
